@@ -128,6 +128,30 @@ def check_L4(report, facts, rule):
                          lambda node=node, env=env: Finding(rule + '.env', 'resolve_immediates', node,
                                                             'immediates are evaluated against {}'.format(show(env)), line=node.lineno))
     report.count('baking evaluation sites', sites)
+    # what is stored into the item is the value evaluated on this very path (at this item's offset): a value taken from a
+    # table filled at other positions (a memo keyed by the expression's text) is stale for every position-dependent operand
+    for r in pa.rows:
+        p = r['path']
+        if p.end == 'raise':
+            continue
+        for ev in p.events:
+            if ev[0] != 'setitem' or ev[2] != C('imm'):
+                continue
+            v = ev[3]
+            while v[0] == 'res':
+                v = v[3]
+            evals = IS.find_all(v, lambda t: (t[0] == 'mcall' and t[2] == 'eval' and len(t[3]) == 3) or
+                                (t[0] == 'call' and t[1] in facts.funcs and len(t[2]) >= 2 and t[2][0] == pa.item))
+            if evals:
+                report.ok(rule + '.bake', 'the stored immediate is the value evaluated on this path')
+                continue
+            if v[0] == 'sub':
+                report.fail(Finding(rule + '.bake', 'resolve_immediates', ev[4],
+                                    'the immediate stored in the item is read from {} instead of being the value evaluated at the item\'s own offset: '
+                                    'an operand that depends on the position (%offset inside %hi / %lo of a far call, %position) gets the value of another site'.format(show(v)[:60]),
+                                    line=getattr(ev[4], 'lineno', None)), instance='stored immediate is evaluated here')
+            else:
+                raise AnalysisError('resolve_immediates: the value stored as the immediate ({}) is not followed back to an evaluation'.format(show(v)[:80]))
     position_starts_at_zero(report, facts, 'resolve_immediates', rule + '.position')
     # Offset.eval / Position.eval normal forms
     m, outs = method_return_lin(facts, 'Offset', 'eval')
